@@ -15,7 +15,7 @@ var c17Tails = []string{
 	"[1:]", "[::-1].a", ".a[:1]", ".[a, b]", ".{x: a, y: b}", ".[a]", ".{x: a}", ".length(@)", ".type(@)", ".not_null(a, b)", ".to_array(a)", ".keys(@)",
 	".a.to_array(@)[*]", ".a.to_array(@)[0:]", ".a.keys(@)[*]", ".a.not_null(@, `[1]`)[*]", ".a.to_string(@)", ".a.type(@)", ".b.to_array(@)[*].a", ".a.length(to_array(@))",
 	"[127]", "[128]", "[200]", "[255]", "[256]", "[-128]", "[-129]", "[-256]", "[128].a", ".a[255]", ".b[200]", "[100:][130]",
-	".a | [0]", ".a || `\"dflt\"`", ".a && b", ".a == `1`", "[].a", ".a[]", "[*][0]", "[*].*", ".[a, b][0]", ".{x: a}.x",
+	".a | [0]", " | [0]", " | [1]", " | [-1]", "[?!a] | [0]", "[?a != `1`] | [0]", "[?a == `null`] | [1]", "[?!@] | [0]", ".a[?!a] | [0]", ".a || `\"dflt\"`", ".a && b", ".a == `1`", "[].a", ".a[]", "[*][0]", "[*].*", ".[a, b][0]", ".{x: a}.x",
 }
 
 var c17Bases = []string{"@", "a", "b", "a.b", "b[0]", "c", "[a, b]", "*", "a[*]", "b[*].a", "`[{\"a\":1,\"b\":[2]},null,{\"a\":null},[1],\"s\"]`", "values(@)", "a[?a]", "not_null(a, b)", "[a, b][]"}
@@ -37,6 +37,8 @@ var c17DocsText = []string{
 	`[[{"a":1,"b":2},{"a":3}],[{"a":null},{"b":4}],null,[[{"a":5}]]]`,
 	`{"a":[{"a":[{"a":[{"a":1}]}]}],"b":[{"a":[{"b":2},{"b":3}]},{"a":[]},{"a":[{"b":null}]}]}`,
 	`{"a":{"x":{"a":1},"y":null,"z":{"a":null,"b":2}},"b":[{"a":{"p":1,"q":null}}]}`,
+	`{"a":[null,{"a":null,"b":1},null,{"a":1,"b":[1]},{"a":2}],"b":[null,null,{"a":{"a":1}},{"a":null}],"c":[null]}`,
+	`[null,null,{"a":null},{"a":1,"b":2},null,{"a":[null,1]}]`,
 }
 
 var c17FixedDocs = len(c17DocsText)
